@@ -42,22 +42,61 @@ func flatParts(ls []gts.Location) []gts.Location {
 	return out
 }
 
-// k1 reports whether joining the parts hits known finding K1: a range
-// directly followed by the point just past its end (Join drops that base).
+// k1 reports whether joining the parts hits known finding K1: a point that
+// lies just past the end of the range kept before it (Join drops that base).
+// The reduction is replayed with the real LocationList.
 func k1(parts []gts.Location) bool {
 	fp := flatParts(parts)
-	for i := 0; i+1 < len(fp); i++ {
-		if r, ok := fp[i].(gts.Ranged); ok {
-			if p, ok := fp[i+1].(gts.Point); ok && r.End == int(p) {
+	list := gts.LocationList{}
+	for _, cur := range fp {
+		if list.Len() > 0 {
+			sl := list.Slice()
+			last := sl[len(sl)-1]
+			if r, ok := last.(gts.Ranged); ok {
+				if p, ok := cur.(gts.Point); ok && r.End == int(p) {
+					return true
+				}
+			}
+			// complemented pairs are re-joined in reverse order
+			a, ok1 := last.(gts.Complemented)
+			b, ok2 := cur.(gts.Complemented)
+			if ok1 && ok2 && k1([]gts.Location{b.Location, a.Location}) {
+				return true
+			}
+		}
+		func() {
+			defer func() { recover() }()
+			list.Push(cur, true)
+		}()
+	}
+	return false
+}
+
+// k4 reports known finding K4: a zero-length site that is absorbed by the
+// part after it, which leaves two parts next to each other that Join would
+// have merged (Join is not idempotent there; join(5,4^5,5) prints join(5,5)).
+func k4(parts []gts.Location) bool {
+	fp := flatParts(parts)
+	for i := 1; i+1 < len(fp); i++ {
+		b, ok := fp[i].(gts.Between)
+		if !ok {
+			continue
+		}
+		switch u := fp[i+1].(type) {
+		case gts.Point:
+			if int(b) == int(u) {
+				return true
+			}
+		case gts.Ranged:
+			if int(b) == u.Start {
 				return true
 			}
 		}
 	}
-	// complemented pairs are re-joined in reverse order
 	for i := 0; i+1 < len(fp); i++ {
 		a, ok1 := fp[i].(gts.Complemented)
-		b, ok2 := fp[i+1].(gts.Complemented)
-		if ok1 && ok2 && k1([]gts.Location{b.Location, a.Location}) {
+		c, ok2 := fp[i+1].(gts.Complemented)
+		if ok1 && ok2 && k4([]gts.Location{c.Location, a.Location}) {
 			return true
 		}
 	}
